@@ -50,7 +50,7 @@ def main(argv):
         tier = "quick"
     if prop == "DUMP":
         ctx = Ctx("DUMP", "quick")
-        for facts in (ctx.ds, ctx.ep):
+        for facts in ((ctx.dsn, ctx.ep) if os.environ.get("VERIF_DUMP_NORMALISED") else (ctx.ds, ctx.ep)):
             for f in facts.fns(argv[2]):
                 print(f.dump())
         return 0
